@@ -51,6 +51,20 @@ Theorem trim_interleaving_irrelevant : forall trs tr' d, db_ok d -> interleave t
 Proof. exact dels_interleave. Qed.
 Print Assumptions trim_interleaving_irrelevant.
 
+(* all of Finalize's outputs at once: for any interleaving tr' of the goroutines' (key, element) results the
+   content written, the set size decrement and the accumulator (as a group element) are the same *)
+Theorem finalize_schedule_independent : forall s ops (trs : list (list (key * elem))) tr',
+  db_ok (s_db s) -> interleave trs tr' ->
+  let d1 := fst (fst (run_ops (s_db s) ops)) in
+  let cr := snd (fst (run_ops (s_db s) ops)) in
+  let de := snd (run_ops (s_db s) ops) in
+  dels (concat trs) d1 = dels tr' d1
+  /\ length (concat trs) = length tr'
+  /\ ceq (acc_removes (acc_adds (s_acc s) cr) (de ++ map snd (concat trs)))
+         (acc_removes (acc_adds (s_acc s) cr) (de ++ map snd tr')).
+Proof. exact finalize_schedule_indep. Qed.
+Print Assumptions finalize_schedule_independent.
+
 Example interleave_nonvacuous :
   interleave [[1; 2]; [3]; [4; 5]] [4; 1; 3; 5; 2] /\ [4; 1; 3; 5; 2] <> concat [[1; 2]; [3]; [4; 5]].
 Proof.
